@@ -18,6 +18,7 @@ CheckQuant(r) == DecodesOK(r) /\ ((r.eok /\ r.dok /\ r.n > 0) =>
 CheckNormal(r) == (r.eok => r.dok) /\ ((r.eok /\ r.dok /\ r.n > 0) =>
     /\ r.nonfinite = 0
     /\ r.coord_oob = 0
+    /\ r.skipok /\ r.bits_ok                         \* the octahedral coordinates are obtainable (transform skipped) and described as lying in the q-bit square
     /\ r.worst_len_ppb <= 1000                        \* | |n'| - 1 | <= 1e-6
     /\ r.worst_angle_u <= r.bound_u)
 CheckNormalTiny(r) == (r.eok /\ r.dok /\ r.n > 0) => r.worst_angle_tiny_u <= r.bound_u
